@@ -78,8 +78,11 @@ pub fn parse_resp(buf: &[u8]) -> Result<(RespIndex, usize), ParseError> {
 
 fn parse_array(buf: &[u8]) -> Result<(ArrayIndex, usize), ParseError> {
     let (len, mut consumed) = parse_len(buf)?;
-    if len < 0 {
+    if len == -1 {
         return Ok((ArrayIndex::Nil, consumed));
+    }
+    if len < 0 {
+        return Err(ParseError::InvalidProtocol);
     }
 
     let array_size = len as usize;
@@ -98,13 +101,19 @@ fn parse_array(buf: &[u8]) -> Result<(ArrayIndex, usize), ParseError> {
 
 fn parse_bulk_str(buf: &[u8]) -> Result<(BulkStrIndex, usize), ParseError> {
     let (len, consumed) = parse_len(buf)?;
-    if len < 0 {
+    if len == -1 {
         return Ok((BulkStrIndex::Nil, consumed));
+    }
+    if len < 0 {
+        return Err(ParseError::InvalidProtocol);
     }
 
     let content_size = len as usize;
     if buf.len() < consumed + content_size + 2 {
         return Err(ParseError::NotEnoughData);
+    }
+    if buf.get(consumed + content_size..consumed + content_size + 2) != Some(&b"\r\n"[..]) {
+        return Err(ParseError::InvalidProtocol);
     }
 
     let s = DataIndex(consumed, consumed + content_size);
@@ -126,9 +135,12 @@ fn parse_line(buf: &[u8]) -> Result<(DataIndex, usize), ParseError> {
     if lf_index == 0 {
         return Err(ParseError::InvalidProtocol);
     }
+    // The line should be terminated by CRLF.
+    if buf.get(lf_index - 1) != Some(&b'\r') {
+        return Err(ParseError::InvalidProtocol);
+    }
 
     // s >= 2
-    // Just ignore the CR
     let line = DataIndex(0, lf_index + 1 - 2);
     Ok((line, lf_index + 1))
 }
